@@ -20,7 +20,7 @@ PID = 'C04'
 LEAN_TARGETS = ['Nitime.Props.C04']
 RULE = ('one PRNG state drives: estimator in {periodogram, periodogram_csd, multi_taper_psd, multi_taper_csd, welch(get_spectra), '
         'SpectralAnalyzer.psd/.periodogram/.spectrum_multi_taper} x real/complex x n of both parities x NFFT in {None, n, >n odd/even} x '
-        'sides in {default, onesided, twosided} x Fs log-uniform in (1e-2,1e4) x 1..5 channels (+ an extra leading dimension) x '
+        'sides in {default, onesided, twosided} x Fs log-uniform in (1e-2,1e4) x 1..6 channels (+ an extra leading dimension), stratified by case index so that every parity / NFFT-mode / amplitude decade 1e-9..1e6 with non-zero mean / layout (1-d, (1,n), >=4 channels) / n_overlap in {None,0,1,N/2,N-1} / unit in {s,ms,us} combination occurs in each run, coherent channels with different spectra for adaptive weights x '
         'NW/BW, low_bias, adaptive x Welch NFFT/overlap/window; distinct = distinct protocol line; non-trivial = signal not identically zero')
 ASSUMPTIONS = [
     'DPSS tapers and eigenvalues are taken from nitime.utils.dpss_windows and passed to the model as data (their properties are C07)',
@@ -37,6 +37,7 @@ TRUSTED_EXTRA = [
 ]
 
 RTOL = 1e-9
+UNITS_TS = ['s', 'ms', 'us', 's']
 
 
 def tsa():
@@ -163,7 +164,7 @@ def run_impl(m):
     if op in ('an_psd', 'an_periodogram', 'an_mt'):
         import nitime.timeseries as ts
         from nitime.analysis import SpectralAnalyzer
-        T = ts.TimeSeries(s, sampling_rate=Fs)
+        T = ts.TimeSeries(s, sampling_rate=Fs, time_unit=m.get('unit', 's'))
         m['Fs_eff'] = float(T.sampling_rate)
         if op == 'an_psd':
             meth = {'this_method': 'welch', 'NFFT': m['NFFT'], 'Fs': Fs}
@@ -472,19 +473,41 @@ def clause_of(m):
 
 
 # ------------------------------------------------------------------ generators
-def gen_signal(rng, nr, shape, cplx):
-    kind = rng.random()
+# Stratified + adversarial: the i-th case of a kind fixes the parity of n, the NFFT mode (None, n, other parity,
+# same parity, 2n, 2n+1, far), the amplitude decade (1e-9 .. 1e6), a non-zero mean relative to the amplitude and the
+# channel layout by cycling through tables (co-prime periods), so every combination that a regression may need
+# (odd n with even NFFT, single channel with NFFT != n, >= 4 channels, n_overlap = 0, complex data, tiny / huge
+# amplitudes with an offset, coherent channels with different spectra, non-second units) occurs in every run;
+# the remaining choices are random.
+AMPS = [1.0, 1e-9, 1e3, 1e-6, 1e6, 1e-3, 30.0]
+MEANS = [0.0, 1.0, -2.5, 0.0, 10.0]
+NFFT_MODES = ['none', 'n', 'other-parity', 'same-parity', '2n', '2n+1', 'far']
+
+
+def gen_signal(rng, nr, shape, cplx, i=None, coherent=False):
     n = shape[-1]
-    if kind < 0.6:
+    i = rng.randrange(10**6) if i is None else i
+    kind = rng.random()
+    if coherent and len(shape) >= 2:
+        # strongly coherent channels with different spectra: one common source through different short filters
+        src = np.cumsum(nr.standard_normal(n + 8)) * 0.2 + nr.standard_normal(n + 8)
+        M = int(np.prod(shape[:-1]))
+        rows = []
+        for c in range(M):
+            ker = np.array([1.0, rng.uniform(-0.9, 0.9), rng.uniform(-0.5, 0.5), rng.uniform(-0.3, 0.3)]) * rng.uniform(0.3, 3)
+            rows.append(np.convolve(src, ker, mode='full')[4:4 + n] + 0.05 * nr.standard_normal(n))
+        s = np.array(rows).reshape(shape)
+    elif kind < 0.55:
         s = nr.standard_normal(shape)
     elif kind < 0.8:
         t = np.arange(n)
         s = np.sin(2 * np.pi * rng.uniform(0.02, 0.45) * t + rng.uniform(0, 6)) * rng.uniform(0.5, 3) + 0.3 * nr.standard_normal(shape)
     else:
         s = np.cumsum(nr.standard_normal(shape), axis=-1) * 0.3
-    s = s * 10.0 ** rng.randint(-3, 3) + rng.choice([0.0, 0.0, 1.0, -2.5])
+    amp = AMPS[i % len(AMPS)]
+    s = (s + MEANS[(i // 2) % len(MEANS)]) * amp
     if cplx:
-        s = s + 1j * nr.standard_normal(shape) * rng.choice([1.0, 0.1])
+        s = s + 1j * nr.standard_normal(shape) * rng.choice([1.0, 0.1]) * amp
     return s
 
 
@@ -492,38 +515,53 @@ def gen_fs(rng):
     return rng.choice([2 * math.pi, 1.0, 10.0 ** rng.uniform(-2, 4), 10.0 ** rng.uniform(-2, 4)])
 
 
-def gen_shape(rng, n, maxch=5, allow_1d=True):
-    c = rng.random()
-    if c < 0.25 and allow_1d:
+def gen_shape(rng, n, maxch=5, allow_1d=True, i=None):
+    i = rng.randrange(10**6) if i is None else i
+    lay = i % 6
+    if lay == 0 and allow_1d:
         return (n,)
-    if c < 0.85:
-        return (rng.randint(1, maxch), n)
-    return (rng.randint(1, 2), rng.randint(1, 3), n)
+    if lay == 1:
+        return (1, n)                                   # single channel, 2-d
+    if lay == 2:
+        return (rng.randint(4, max(4, maxch)), n)       # >= 4 channels
+    if lay == 3:
+        return (rng.randint(1, 2), rng.randint(2, 3), n)    # extra leading dimension
+    return (rng.randint(2, max(2, maxch)), n)
 
 
-def gen_nfft(rng, n):
-    return rng.choice([None, None, n, n + 1, n + 2, n + rng.randint(3, 20), 2 * n, 2 * n + 1])
+def gen_nfft(rng, n, i=None):
+    mode = NFFT_MODES[(rng.randrange(7) if i is None else i // 2) % 7]
+    return {'none': None, 'n': n, 'other-parity': n + rng.choice([1, 3, 7]), 'same-parity': n + rng.choice([2, 4, 10]),
+            '2n': 2 * n, '2n+1': 2 * n + 1, 'far': n + rng.randint(11, 40)}[mode]
 
 
-def gen_meta(rng, nr, tier, kind):
+def gen_n(rng, lo, hi, i):
+    n = rng.randint(lo, hi)
+    if i is not None and n % 2 != i % 2:
+        n += 1
+    return n
+
+
+def gen_meta(rng, nr, tier, kind, i=None):
     big = tier == 'thorough'
     nmax = 160 if big else 48
+    i = rng.randrange(10**6) if i is None else i
     if kind in ('periodogram', 'pcsd'):
-        n = rng.randint(8, nmax)
-        cplx = rng.random() < 0.3
-        shape = gen_shape(rng, n, maxch=5 if kind == 'periodogram' else 4, allow_1d=(kind == 'periodogram'))
-        m = {'op': kind, 'Fs': gen_fs(rng), 'NFFT': gen_nfft(rng, n), 'sides': rng.choice(['default', 'default', 'onesided', 'twosided']),
+        n = gen_n(rng, 8, nmax, i)
+        cplx = (i % 11) in (2, 5, 8)
+        shape = gen_shape(rng, n, maxch=6, allow_1d=(kind == 'periodogram'), i=i // 3)
+        m = {'op': kind, 'Fs': gen_fs(rng), 'NFFT': gen_nfft(rng, n, i), 'sides': ['default', 'onesided', 'twosided', 'default'][(i // 5) % 4],
              'scale': rng.choice([1.5, -2.0, 0.25, 3.0])}
         if cplx and m['sides'] == 'onesided' and rng.random() < 0.7:
             m['sides'] = 'default'
-        return put_data(m, gen_signal(rng, nr, shape, cplx))
+        return put_data(m, gen_signal(rng, nr, shape, cplx, i=i // 7))
     if kind in ('mtpsd', 'mtcsd'):
-        n = rng.randint(16, nmax)
-        cplx = rng.random() < 0.25
-        shape = gen_shape(rng, n, maxch=3, allow_1d=(kind == 'mtpsd'))
+        n = gen_n(rng, 16, nmax, i)
+        cplx = (i % 11) in (2, 5, 8)
+        shape = gen_shape(rng, n, maxch=5 if kind == 'mtcsd' else 4, allow_1d=(kind == 'mtpsd'), i=i // 3)
         Fs = gen_fs(rng)
-        m = {'op': kind, 'Fs': Fs, 'NFFT': gen_nfft(rng, n), 'sides': rng.choice(['default', 'default', 'onesided', 'twosided']),
-             'adaptive': rng.random() < 0.4, 'low_bias': rng.random() < 0.7, 'scale': rng.choice([1.5, -2.0, 0.25])}
+        m = {'op': kind, 'Fs': Fs, 'NFFT': gen_nfft(rng, n, i), 'sides': ['default', 'onesided', 'twosided', 'default'][(i // 5) % 4],
+             'adaptive': (i % 5) in (1, 3), 'low_bias': (i % 3) != 0, 'scale': rng.choice([1.5, -2.0, 0.25, 1e4, 1e-4])}
         if cplx and m['sides'] == 'onesided':
             m['sides'] = 'default'
         if rng.random() < 0.3:
@@ -532,38 +570,40 @@ def gen_meta(rng, nr, tier, kind):
         else:
             m['NW'] = rng.choice([2, 2.5, 3, 4, None])
             m['BW'] = None
-        return put_data(m, gen_signal(rng, nr, shape, cplx))
+        return put_data(m, gen_signal(rng, nr, shape, cplx, i=i // 7, coherent=(m['adaptive'] and i % 2 == 1)))
     if kind == 'welch':
-        N = rng.choice([8, 9, 12, 15, 16, 21, 32] + ([64, 63] if big else []))
-        n = rng.choice([rng.randint(max(4, N // 2), N), rng.randint(N, 4 * N), rng.randint(2 * N, 6 * N)])
-        cplx = rng.random() < 0.3
-        M = rng.randint(1, 4)
+        Ns = [8, 9, 12, 15, 16, 21, 32] + ([64, 63] if big else [])
+        N = Ns[i % len(Ns)]
+        n = [rng.randint(max(4, N // 2), N - 1), rng.randint(N, 4 * N), rng.randint(2 * N, 6 * N), N, 2 * N + 1][(i // 2) % 5]
+        cplx = (i % 11) in (2, 5, 8)
+        M = [1, 2, 3, 4, 5, 1][(i // 3) % 6]
         shape = (n,) if M == 1 else (M, n)
         m = {'op': 'welch', 'Fs': gen_fs(rng), 'NFFT': N, 'sides': 'default',
-             'n_overlap': rng.choice([None, 0, 1, N // 2, N - 1, rng.randint(0, N - 1)]),
+             'n_overlap': [None, 0, 1, N // 2, N - 1, rng.randint(0, N - 1)][(i // 5) % 6],
              'window': rng.choice([None, None, [float(v) for v in np.ones(N)], [float(v) for v in np.hamming(N)]]),
              'scale': rng.choice([1.5, -2.0, 0.25])}
-        return put_data(m, gen_signal(rng, nr, shape, cplx))
+        return put_data(m, gen_signal(rng, nr, shape, cplx, i=i // 7))
     if kind == 'an_psd':
-        N = rng.choice([8, 9, 16, 21, 32])
+        N = [8, 9, 16, 21, 32][i % 5]
         n = rng.randint(N // 2 + 2, 5 * N)
-        cplx = rng.random() < 0.25
-        shape = rng.choice([(n,), (rng.randint(1, 3), n), (2, 2, n)])
-        m = {'op': 'an_psd', 'Fs': gen_fs(rng), 'NFFT': N, 'sides': 'default', 'n_overlap': rng.choice([None, 0, N // 2, N - 2])}
-        return put_data(m, gen_signal(rng, nr, shape, cplx))
+        cplx = (i % 4) == 3
+        shape = [(n,), (rng.randint(1, 4), n), (2, 2, n)][(i // 2) % 3]
+        m = {'op': 'an_psd', 'Fs': gen_fs(rng), 'NFFT': N, 'sides': 'default', 'n_overlap': [None, 0, N // 2, N - 2][(i // 3) % 4],
+             'unit': UNITS_TS[i % len(UNITS_TS)]}
+        return put_data(m, gen_signal(rng, nr, shape, cplx, i=i // 7))
     if kind == 'an_periodogram':
-        n = rng.randint(8, nmax)
-        cplx = rng.random() < 0.25
-        m = {'op': 'an_periodogram', 'Fs': gen_fs(rng), 'NFFT': None, 'sides': 'default'}
-        return put_data(m, gen_signal(rng, nr, gen_shape(rng, n, 3), cplx))
+        n = gen_n(rng, 8, nmax, i)
+        cplx = (i % 4) == 3
+        m = {'op': 'an_periodogram', 'Fs': gen_fs(rng), 'NFFT': None, 'sides': 'default', 'unit': UNITS_TS[i % len(UNITS_TS)]}
+        return put_data(m, gen_signal(rng, nr, gen_shape(rng, n, 4, i=i // 2), cplx, i=i // 7))
     if kind == 'an_mt':
-        n = rng.randint(16, nmax)
+        n = gen_n(rng, 16, nmax, i)
         cplx = False
         Fs = gen_fs(rng)
-        m = {'op': 'an_mt', 'Fs': Fs, 'NFFT': None, 'sides': 'default', 'adaptive': rng.random() < 0.4,
-             'low_bias': rng.random() < 0.5, 'BW': rng.choice([None, 5 * Fs / n, 8 * Fs / n]), 'NW': None}
-        shape = rng.choice([(n,), (rng.randint(1, 3), n)])
-        return put_data(m, gen_signal(rng, nr, shape, cplx))
+        m = {'op': 'an_mt', 'Fs': Fs, 'NFFT': None, 'sides': 'default', 'adaptive': (i % 5) in (1, 3),
+             'low_bias': (i % 2) == 0, 'BW': [None, 5 * Fs / n, 8 * Fs / n][(i // 2) % 3], 'NW': None, 'unit': UNITS_TS[i % len(UNITS_TS)]}
+        shape = [(n,), (rng.randint(1, 3), n)][(i // 3) % 2]
+        return put_data(m, gen_signal(rng, nr, shape, cplx, i=i // 7))
     raise ValueError(kind)
 
 
@@ -574,9 +614,10 @@ MIX = {'quick': [('periodogram', 160), ('pcsd', 100), ('mtpsd', 90), ('mtcsd', 6
 def gen_all(rng, tier, seed, pid=PID, mix=None):
     nr = common.np_rng(pid, seed, 'signals')
     out = []
+    off = rng.randrange(10**4)
     for kind, cnt in (mix or MIX)[tier]:
-        for _ in range(cnt):
-            out.append(gen_meta(rng, nr, tier, kind))
+        for i in range(cnt):
+            out.append(gen_meta(rng, nr, tier, kind, i=off + i))
     return out
 
 
